@@ -338,3 +338,5 @@ func dumpExported(sb *strings.Builder, v reflect.Value, path string, buf []byte,
 		panic("dump: unsupported kind " + t.String())
 	}
 }
+
+func unsafePtr[T any](p *T) unsafe.Pointer { return unsafe.Pointer(p) }
